@@ -129,8 +129,8 @@ def diag(v):
 class Point:
     """an assignment: atoms (SYM terms) -> values, index terms -> lists of ints / ints"""
 
-    def __init__(self, p, values, indices):
-        self.p, self.values, self.indices = p, values, indices
+    def __init__(self, p, values, indices, mnf=None):
+        self.p, self.values, self.indices, self.mnf = p, values, indices, mnf
 
     def index(self, k):
         if k == "ALL":
@@ -142,9 +142,18 @@ class Point:
             return v
         if k in self.indices:
             return self.indices[k]
+        if isinstance(k, tuple) and k[0] == "sub" and len(k) == 3 and not (isinstance(k[2], tuple) and k[2] and k[2][0] in ("tuple", "slice")):
+            # an index list indexed by an index list (a permutation of it): L[P]
+            base_, pos_ = self.index(k[1]), self.index(k[2])
+            if isinstance(base_, list) and isinstance(pos_, list):
+                return [base_[j] for j in pos_]
+            if isinstance(base_, list) and isinstance(pos_, int):
+                return base_[pos_]
         if isinstance(k, tuple) and k[0] == "ext" and len(k[2]) == 1:
             inner = self.index(k[2][0])
             d = k[1]
+            if isinstance(inner, list) and d == "numpy.argsort":
+                return sorted(range(len(inner)), key=lambda j: inner[j])
             if isinstance(inner, list):
                 if d in ("sorted", "numpy.sort"):
                     return sorted(inner)
@@ -185,6 +194,8 @@ def ev_factor(f, pt):
         return transpose(v) if t else v
     if k == "V":
         b = pt.values.get(f[1])
+        if b is None and pt.mnf is not None:
+            b = ev_nf(pt.mnf.nf(f[1]), pt)          # v[idx] of a computed vector (e.g. a solution re-indexed by a permutation)
         if b is None or not is_v(b):
             raise Inconclusive("no vector value")
         i = pt.index(f[2])
